@@ -121,7 +121,7 @@ class EvalProp(PropCheck):
 
     def make_case(self, cid, q, d, meta=None):
         meta = dict(meta or {})
-        if gen.parser_shaped(q) and self.rng.random() < self.e2e_share:
+        if gen.parser_shaped(q) and self.rng.random() < self.e2e_share and gen.renderable(q):
             ly = gen.Layout(self.rng, blank=self.blank if self.rng.random() < 0.5 else 0.0)
             try:
                 text = gen.render(q, ly)
@@ -221,7 +221,7 @@ class EvalProp(PropCheck):
         for q2 in itertools.islice(shrink_tuple(q), 300):
             if len(cands) >= 60:
                 break
-            if gen.parser_shaped(q2) and gen.valid_ast(q2):
+            if gen.parser_shaped(q2) and gen.valid_ast(q2) and gen.renderable(q2):
                 try:
                     text = gen.render(q2, gen.Layout(self.rng, 0.0))
                 except Exception:
@@ -638,13 +638,13 @@ class C10(EvalProp):
                     pats.add(x + qx + y)
                     pats.add(x + qx + "|" + y)
         pats |= {"", "^a", "a$", "^a$", "^a|b$", "a|", "|a", "()", "(a|)", "a)(?:b", "(", ")", "[", "a**", "a{", "a{2,1}", "[b-a]", "(?:a|b)c",
-                 "^", "$", "a^", "$a", "(^a)", "a|b|c", "((a))", "[.]", "[ab][ab]", ".*", ".+", "..", "a.c", "a\\.c", "a\\\\", "\\(a\\)", "[\\]]", "a\\nb"}
+                 "^", "$", "a^", "$a", "(^a)", "a|b|c", "((a))", "[.]", "[ab][ab]", ".*", ".+", "..", "a.c", "a\\\\.c", "a\\\\", "\\\\(a\\\\)", "[\\\\]]", "a\\nb"}
         subs = [""] + ["".join(t) for n in (1, 2, 3) for t in itertools.product("abc", repeat=n)] + ["a\rb", "a\nb", "a.c", "(a)", "abab", "aab", "bbbb", "a\\", "]", "\r", "\n", "é", "\U0001F600", "ab\U0001F600"]
         doc = ("a",) + tuple(S(x) for x in subs) + (("i", 1), "null", ("a", S("a")))
         out = []
         pats = sorted(pats)
         if self.tier == "quick":
-            pats = self.rng.sample(pats, 160) + ["^a|b$", "a)(?:b", "a.c", ".", "a|", "", "(a|b)c"]
+            pats = self.rng.sample(pats, 160) + ["^a|b$", "a)(?:b", "a.c", ".", "a|", "", "(a|b)c", "a\\\\.c", "a\\\\", "\\\\(a\\\\)", "[\\\\]]", "a\\nb"]
         for p in pats:
             for fn in ("match", "search"):
                 q = ("q", ("sel", ("filter", ("atom", ("atest", ("tfn", (fn, ("argt", ("rel",)), ("argl", ("str", S(p))))), 0)))))
@@ -1399,6 +1399,10 @@ class C08(ParseProp):
             elif r < 0.55:
                 text = "".join(self.rng.choice(gen.TOKEN_ALPHABET) for _ in range(self.rng.randrange(0, 14)))
             d = self.rng.choice(docs) if self.rng.random() < 0.5 else g.doc()
+            if text.count("..") >= 2 and any(d is x for x in docs[7:10]):
+                # several descendant segments over a deep or wide document multiply the (legitimately duplicated) nodelist
+                # into millions of nodes: minutes in a debug build, and nothing but time is learnt from it
+                d = docs[6]
             out.append(Case("s%d" % i, "ROB", [S(text), d], {"query": text}))
             i += 1
         ext = [MAXI, -MAXI, MAXI - 1, 2**31, -2**31, 2**32, 2**52, 0, 1, -1]
